@@ -81,6 +81,17 @@ def _cases(tier, seed):
                         yield dict(kind="expand", frame=fr, form=form, center=list(c), sizes=list(sl))
         for bad in ("oversized_e", "oversized_n", "no_step"):
             yield dict(kind="invalid", frame=fr, bad=bad)
+    # projected-coordinate magnitudes, float64 and float32 coordinate arrays (a float32 step is 0.5 there) with Python-float centres that
+    # float32 cannot represent (seed C14-10: the centre rounded to the coordinates' dtype); rolling windows over the same arrays
+    fr = [1.0, 7460000.0]
+    for form in ("1d", "f32", "f32_e"):
+        for c in [(2.0, 1.5), (2.1, 1.3), (1.3, 2.2), (0.2, 0.2)]:
+            for k in (1, 2):
+                for sl in itertools.permutations([0.1, 0.5, 1.0, 2.0, 4.0], k):
+                    yield dict(kind="expand", frame=fr, form=form, center=list(c), sizes=list(sl))
+        for size in (1.0, 1.5, 3.0):
+            for st in (dict(spacing=0.5), dict(spacing=[1.0, 0.75]), dict(shape=[2, 3])):
+                yield dict(kind="roll", frame=fr, cloud="lattice", form=form, region=[0.0, 4.0, 0.0, 3.0], size=size, step=st, adjust="spacing")
 
 
 def _cloud(case):
@@ -104,6 +115,10 @@ def _cloud(case):
         e, n = e.astype(np.int64), n.astype(np.int64)
     if form == "int_e":
         e = e.astype(np.int64)
+    if form in ("f32", "f32_e"):
+        e = e.astype(np.float32)
+        if form == "f32":
+            n = n.astype(np.float32)
     coords = (e, n)
     if form == "2d+extra":
         coords = (e, n, np.arange(e.size, dtype=float).reshape(e.shape) * 10)
